@@ -48,6 +48,27 @@ def _pure(e: ast.AST) -> bool:
     return False
 
 
+_QUIET_CALLS = {"isinstance", "len", "str", "repr", "bool", "list", "set", "sorted", "tuple", "format", "type", "callable", "hasattr", "getattr", "int", "bytes"}
+
+
+def _quiet(fn: ast.FunctionDef) -> bool:
+    """the function body has no store to an attribute / subscript, no del, and calls only builtins of the list above, exception constructors in a raise, and
+    `.get` / `.keys` / `.items` / `.startswith` / `.endswith` readers - nothing that could modify an object an argument expression reads"""
+    raised = {id(x.exc) for x in ast.walk(fn) if isinstance(x, ast.Raise) and x.exc is not None}
+    for x in ast.walk(fn):
+        if isinstance(x, (ast.Attribute, ast.Subscript)) and isinstance(x.ctx, (ast.Store, ast.Del)):
+            return False
+        if isinstance(x, (ast.AugAssign, ast.Delete, ast.With, ast.Await)):
+            return False
+        if isinstance(x, ast.Call) and id(x) not in raised:
+            if isinstance(x.func, ast.Name) and x.func.id in _QUIET_CALLS:
+                continue
+            if isinstance(x.func, ast.Attribute) and x.func.attr in ("get", "keys", "items", "values", "startswith", "endswith", "format", "join", "copy"):
+                continue
+            return False
+    return True
+
+
 class _Unsupported(Exception):
     pass
 
@@ -433,6 +454,8 @@ class Inliner:
             a = got[p]
             if isinstance(a, (ast.Name, ast.Constant)) and p not in assigned:
                 mapping[p] = a  # a caller's local cannot be re-bound by the spliced body (its own locals are renamed apart)
+            elif _pure(a) and p not in assigned and _quiet(fn):
+                mapping[p] = a  # the body stores nothing and calls nothing that could change what the attribute chain reads
             else:
                 rename[p] = p + tag
                 pre.append(ast.copy_location(ast.Assign(targets=[ast.Name(id=p + tag, ctx=ast.Store())], value=a, lineno=call.lineno), call))
